@@ -515,10 +515,7 @@ def load_database(dbpath, rootdir):
             if os.path.isabs(command.directory):
                 filedir = command.directory
             else:
-                filedir = os.path.abspath(
-                    rootdir,
-                    os.path.join(command.directory),
-                )
+                filedir = os.path.join(rootdir, command.directory)
 
         # Resolve symbolic links and ".." physically: collapsing "link/.." by
         # name would point at a different file.
